@@ -197,7 +197,19 @@ def run (j : Json) : Except String Json := do
     | some x => (← x.getArr?).toList.mapM (·.getNat?)
   let pr : Char → Bool := fun c => !nonprint.contains c.toNat
   let s ← Schema.ofJson sj
-  let defs ← defsJ.mapM fun (n, d) => do pure (n, ← Schema.ofJson d)
+  let defsDict ← defsJ.mapM fun (n, d) => do pure (n, ← Schema.ofJson d)
+  let defDescs0 : List (Option String) ← match optField j "defDescs" with
+    | none => pure (defsDict.map fun _ => none)
+    | some x => (← x.getArr?).toList.mapM fun e => match e with
+      | .null => pure none
+      | e => do pure (some (← e.getStr?))
+  -- `schema_definitions_to_code` emits in depth-first dependency order (`_definitions_in_dependency_order`)
+  let order := topoOrder defsDict
+  let defs : List (String × Schema) := order.filterMap fun n => (lookup n defsDict).map fun d => (n, d)
+  let descOf (n : String) : Option String :=
+    match (defsDict.map (·.1)).zip defDescs0 |>.find? (fun e => e.1 == n) with
+    | some e => e.2
+    | none => none
   -- text
   -- at top level the emitted `_required` is the private copy after the `remove`s
   let emitted (x : Schema) : Schema := match x with
@@ -232,12 +244,7 @@ def run (j : Json) : Except String Json := do
     | '-' :: r => PyGram.isNumText r
     | r => PyGram.isNumText r
   let oracleOk := floats.all (fun e => floatOk e.2)
-  let defDescs : List (Option String) ← match optField j "defDescs" with
-    | none => pure (defs.map fun _ => none)
-    | some x => (← x.getArr?).toList.mapM fun e => match e with
-      | .null => pure none
-      | e => do pure (some (← e.getStr?))
-  let defSrcs : List Emit.ClassSrc := (defs.zip defDescs).map fun ((n, d), ds) => ⟨n, ds, d⟩
+  let defSrcs : List Emit.ClassSrc := defs.map fun (n, d) => ⟨n, descOf n, d⟩
   let write := (← optStr j "api") == some "write"
   let text := Emit.moduleText O write defSrcs ⟨name, desc, s⟩
   let recog := PyGram.recognise X text
